@@ -179,6 +179,8 @@ func buildVariant(variant, dst string) error {
 		args = append(args, "-ldflags=-s")
 	case "extlink": // the system linker lays text and data out differently: function and data slides differ
 		args = append(args, "-ldflags=-linkmode=external")
+	case "extstrip": // both at once: a slide is needed and the ELF symbol table that helps computing it is gone
+		args = append(args, "-ldflags=-linkmode=external -s")
 	}
 	args = append(args, altModfile()...)
 	args = append(args, "./cmd/simnode")
